@@ -287,6 +287,9 @@ def cmdline_handler(argv):
                     runhy.run_path(str(filename), run_name="__main__")
                 return 0
             except FileNotFoundError as e:
+                if os.path.exists(filename):
+                    # The program itself failed to find some file.
+                    raise
                 print(
                     "hy: Can't open file '{}': [Errno {}] {}".format(
                         e.filename, e.errno, e.strerror
